@@ -440,4 +440,8 @@ func init() {
 		Old:    "func (m *Monitor) stopMonitor() {\n\tm.stopMonitorChan <- true\n}",
 		New:    "func (m *Monitor) stopMonitor() {\n\tselect {\n\tcase m.stopMonitorChan <- true:\n\tdefault:\n\t}\n}",
 		Expect: "outside-access-after-handshake"})
+	addFixture(Fixture{Name: "binder-captures-self-reference", Rule: "R-SUBST-CONTRA", File: "process/name.go",
+		Old:    "&& n.Ident == old.Ident && (!n.IsSelf || old.IsSelf) {",
+		New:    "&& n.Ident == old.Ident {",
+		Expect: "n-self=true,old-self=false"})
 }
